@@ -90,6 +90,86 @@ pub fn point(name: &str, fields: &[(&str, u64)]) {
     }
 }
 
+/// Thin public wrapper over the page cache (write buffer + read cache over a storage backend),
+/// for the cache checks
+pub struct CacheHandle {
+    inner: crate::tree_store::verif_export::VerifCache,
+}
+
+/// (offsets in the write buffer, offsets in the read cache, committed-pages flag, read cache
+/// bytes, write buffer bytes)
+pub type CacheSnapshot = (Vec<u64>, Vec<u64>, bool, usize, usize);
+
+impl CacheHandle {
+    pub fn new(
+        backend: Box<dyn crate::StorageBackend>,
+        page_size: u64,
+        max_cache_size: usize,
+    ) -> Result<Self, crate::DatabaseError> {
+        Ok(Self {
+            inner: crate::tree_store::verif_export::VerifCache::new(
+                backend,
+                page_size,
+                max_cache_size,
+            )?,
+        })
+    }
+
+    /// read(); `clean` selects PageHint::Clean
+    pub fn read(&self, offset: u64, len: usize, clean: bool) -> crate::Result<Vec<u8>> {
+        self.inner.read(offset, len, clean)
+    }
+
+    /// write(): obtains the writable page, copies `fill` over its beginning, drops it
+    pub fn write(&self, offset: u64, len: usize, overwrite: bool, fill: &[u8]) -> crate::Result {
+        self.inner.write(offset, len, overwrite, fill)
+    }
+
+    pub fn flush(&self) -> crate::Result {
+        self.inner.flush()
+    }
+
+    pub fn sync_file(&self) -> crate::Result {
+        self.inner.sync_file()
+    }
+
+    pub fn write_barrier(&self) {
+        self.inner.write_barrier();
+    }
+
+    pub fn resize(&self, len: u64) -> crate::Result {
+        self.inner.resize(len)
+    }
+
+    pub fn invalidate_cache(&self, offset: u64, len: usize) {
+        self.inner.invalidate_cache(offset, len);
+    }
+
+    pub fn invalidate_cache_all(&self) {
+        self.inner.invalidate_cache_all();
+    }
+
+    pub fn cancel_pending_write(&self, offset: u64, len: usize) {
+        self.inner.cancel_pending_write(offset, len);
+    }
+
+    pub fn discard_write_buffer(&self) {
+        self.inner.discard_write_buffer();
+    }
+
+    pub fn check_io_errors(&self) -> crate::Result {
+        self.inner.check_io_errors()
+    }
+
+    pub fn close(&self) -> crate::Result {
+        self.inner.close()
+    }
+
+    pub fn snapshot(&self) -> CacheSnapshot {
+        self.inner.snapshot()
+    }
+}
+
 /// Thin public wrapper over one region's buddy allocator, for the allocator checks
 pub struct BuddyHandle {
     inner: crate::tree_store::verif_export::BuddyAllocator,
